@@ -326,6 +326,17 @@ func (ex *Exec) selectUnderLock(st *State, fr *Frame, sel *ssa.Select, ch Val) {
 		return
 	}
 	goal := "(< " + st.read(chlenArr(ch), "Int", ch.T) + " (ch_cap " + ch.T + "))"
+	if fr.spec != nil {
+		// ... or the select can be released by a declared signal
+		for _, c := range fr.spec.ReleasedBy {
+			want := ex.evalSpec(st, fr, c.Expr, nil)
+			for _, s2 := range sel.States {
+				if s2.Dir == types.RecvOnly {
+					goal = smtOr(goal, "(= "+ex.val(st, fr, s2.Chan).T+" "+want.T+")")
+				}
+			}
+		}
+	}
 	ex.oblige(st, "no-blocking-under-lock", fmt.Sprintf("%s/C11.select_send_under_%s#%d", fr.key, l, ex.ordinalOf(fr, sel, "select")),
 		[]string{"C11.no_blocking_under_teardown_lock"}, goal, nil, ex.posOf(sel))
 }
